@@ -1,5 +1,6 @@
 import ClaripyProofs.Lemmas.VSA.Convert
 import ClaripyProofs.Lemmas.VSA.ConvertProved
+import ClaripyProofs.Lemmas.VSA.MinMax
 /-!
 # C24 — VSA evaluation of expressions over annotated variables over-approximates
 
@@ -114,6 +115,19 @@ theorem C24_bool_sound_rest (anno : Nat → SI) (env : Nat → Nat)
     (o o' : Orders) (br : BoolRes) (hwt : WTB anno env c) (h : convB anno c o = .ok (br, o'))
     (b : Bool) (hb : evalB env c = some b) : br.has b = true :=
   convB_rest_good anno env hctx c o br o' R hdef hwt h b hb
+
+/-- the query obligations are proved (C22_min_max_bound) -/
+theorem queriesOK : QueriesOK := ⟨fun s m x hs hx h => min_le s m x hs hx h, fun s m x hs hx h => le_max s m x hs hx h⟩
+
+/-- `SolverVSA.min/max` on an AST of the proved fragment: no hypothesis left -/
+theorem C24_fragment_min_max_over (anno : Nat → SI) (env : Nat → Nat)
+    (hctx : ∀ i, (anno i).WF ∧ (anno i).mem (env i))
+    (e : BV) (hfrag : usesRestBV e = false) (hdef : DefBV env e)
+    (o o' : Orders) (av : AV) (hwt : WTBV anno env e) (h : convBV anno e o = .ok (av, o'))
+    (v : Nat) (hv : evalBV env e = some v) :
+    (∀ m, av.si.min false = .ok (some m) → m ≤ v) ∧ (∀ m, av.si.max false = .ok (some m) → (v : Int) ≤ m) := by
+  obtain ⟨hw, _, hm⟩ := C24_fragment_sound anno env hctx e hfrag hdef o o' av hwt h v hv
+  exact ⟨fun m hmin => min_le av.si m v hw hm hmin, fun m hmax => le_max av.si m v hw hm hmax⟩
 
 /-- non-vacuity and a bounded sanity fact: `If(x <u 4, x + 1, 0)` with `x ∈ 1[2,6]` at 3 bits -/
 def demoExpr : BV := .ite (.cmp .ult (.var 0 3) (.const 4 3)) (.bin .add (.var 0 3) (.const 1 3)) (.const 0 3)
